@@ -46,7 +46,14 @@ class _Fail(Exception):
 # ======================================================================================
 # generation: world + abstract operation list, pure function of (prop, seed, idx)
 
-UNSEEN_KINDS = ("unseen_category", "unseen_nan", "out_of_range", "extreme_magnitude", "equal_other_type")
+UNSEEN_KINDS = (
+    "unseen_category",
+    "unseen_nan",
+    "out_of_range",
+    "extreme_magnitude",
+    "equal_other_type",
+    "borrowed_category",  # a value this feature never saw but another qualitative feature knows
+)
 
 
 def _gen_frame(rng, world, prop, allow_inject, want_pure=False):
@@ -83,7 +90,7 @@ def _gen_frame(rng, world, prop, allow_inject, want_pure=False):
             kind = rng.choice(UNSEEN_KINDS)
             payload = None
             if feat["kind"] == "quant":
-                if kind in ("unseen_category", "equal_other_type"):
+                if kind in ("unseen_category", "equal_other_type", "borrowed_category"):
                     kind = "out_of_range"
                 if kind == "out_of_range":
                     payload = rng.choice(["below", "above", "between", "zero", "neg_zero", "inf", "neg_inf"])
@@ -589,6 +596,17 @@ class Session:
                         value = int(current)
                     elif isinstance(current, str) and current.lstrip("-").isdigit():
                         value = int(current)
+                elif ikind == "borrowed_category":
+                    own = {repr(v) for v in feat["values"] if v is not None}
+                    donors = [
+                        v
+                        for other in self.world["features"]
+                        if other["kind"] != "quant" and other["name"] != feat["name"]
+                        for v in other["values"]
+                        if v is not None and repr(v) not in own
+                    ]
+                    uniq = sorted({repr(v): v for v in donors}.items())
+                    value = uniq[pos % len(uniq)][1] if uniq else "zz_novel"
                 else:
                     value = payload
                 frame[col] = frame[col].astype("object")
